@@ -332,3 +332,102 @@ transfer_one = FunctionContract(
             ("mol_node['_old_atomname'] = mol_node['atomname']", "mol_node['_old_atomname'] = val")],
 )
 CONTRACTS.append(transfer_one)
+
+
+# ------------------------------------------------------------------ fix_ptm: a group of unrecognised atoms nothing explains
+PtmAtoms = TTuple(TSet(MNode), TSet(MNode))                # (the unrecognised atoms of one branch, its anchors)
+
+
+def setup_unid(cx):
+    eng = cx.eng
+    from pyvc.builtins import list_append, contains
+    res_ptms = cx.val('res_ptms', TSeq(PtmAtoms))
+    resids = cx.val('resids', TSeq(TInt))
+    removed = cx.box('removed', TSet(MNode))
+    coverable = cx.val('coverable', TBool)                 # identify_ptms finds a cover (its contract: KeyError otherwise)
+    cx.spec_env['coverable'] = coverable
+    MOLN = cx.heap('MOLN', cx.box('MOLN', TSet(MNode)))    # the atoms of the molecule
+    WARNED = cx.heap('WARNED', cx.box('WARNED', TSeq(TStr)))
+    first_of = cx.uf('first_of', [TInt], MNode)
+
+    def identify(e, residue, ptms, options):
+        e.maybe_raise(coverable.e, 'KeyError')
+        return Obj('identified')
+    cx.spec_env['identify_ptms'] = Builtin(identify, 'identify_ptms')
+
+    def remove_node(e, n):
+        ne = to_z3(n, MNode)
+        # networkx: removing a node that is not in the graph raises NetworkXError
+        e.maybe_raise(z3.Select(MOLN.e, ne), 'NetworkXError')
+        MOLN.e = z3.Store(MOLN.e, ne, False)
+
+    def node_of(e, n):
+        # the attributes of an atom that is no longer in the molecule: KeyError
+        e.maybe_raise(z3.Select(MOLN.e, to_z3(n, MNode)), 'KeyError')
+        return Obj('molnode')
+    in_group = cx.uf('in_group', [TInt], TBool)            # the residue number is one of `resids`
+
+    def sorted_(e, x):
+        # sorted(set(resids)): some list of residue numbers of the group (its order only matters for the message)
+        out = e.fresh_val(TSeq(TInt), 'sorted')
+        k = z3.Int('sk')
+        e.assume(z3.ForAll([k], z3.Implies(z3.And(0 <= k, k < TSeq(TInt).len(out.e)), in_group(TSeq(TInt).at(out.e, k)))))
+        return out
+    cx.spec_env['sorted'] = Builtin(sorted_, 'sorted')
+    molecule = Obj('Molecule', remove_node=Builtin(remove_node, 'molecule.remove_node'),
+                   nodes=Obj('NodeView', __getitem__=Builtin(node_of, 'molecule.nodes[]')))
+    resid_to_idxs = Obj('resid_to_idxs', __getitem__=Builtin(
+        lambda e, r: Obj('idxs', __getitem__=Builtin(lambda e2, k: SV(MNode, first_of(to_z3(r, TInt))), 'idxs[]')), 'resid_to_idxs[]'))
+    # the texts of the message are not modelled (sorted() is only used for the list of residues in it)
+    eng.opaque_exprs["['{atomid}-{atomname}'.format(**molecule.nodes[idx]) for idxs in res_ptms for idx in idxs[0]]"] = \
+        lambda e: e.fresh_val(TSeq(TStr), 'atom_names')
+    eng.format_hooks['{resname}{resid}'] = lambda e, *a, **k: 'residue'
+    eng.format_hooks['{atomid}-{atomname}'] = lambda e, *a, **k: 'atom'
+    log = Obj('LOGGER', info=Builtin(lambda e, *a, **k: None, 'LOGGER.info'), debug=Builtin(lambda e, *a, **k: None, 'LOGGER.debug'))
+    log.attrs['warning'] = Builtin(lambda e, *a, type=None, **k: list_append(e, WARNED, type), 'LOGGER.warning')
+    cx.spec_env['LOGGER'] = log
+    return dict(molecule=molecule, res_ptms=res_ptms, resids=resids, removed=removed, residue=Obj('residue'), options=Obj('options'),
+                resid_to_idxs=resid_to_idxs)
+
+
+SPEC_UNID = {
+    # n is one of the unrecognised atoms of the first J branches of the group
+    'gone': "lambda n, J: exists(lambda j: 0 <= j and j < J and n in res_ptms[j][0])",
+}
+UNID_M = "forall(lambda n: (n in MOLN) == (n in old(MOLN) and not gone(n, {J})), MNode)"
+UNID_R = "forall(lambda n: (n in removed) == (n in old(removed) or gone(n, {J})), MNode)"
+unidentified = FunctionContract(
+    F, 'fix_ptm', 'C14', short='fix_ptm[unexplained atoms]', setup=setup_unid, spec_defs=SPEC_UNID, spec_env=dict(MNode=MNode),
+    region=dict(within=["for resids, res_ptms in itertools.groupby(ptm_atoms, key_func):"], start="try:", end="LOGGER.info("),
+    # find_ptm_atoms: the branches are sets of atoms of the molecule, and no atom is in two of them
+    requires=[# the first atom of every residue of the group is still in the molecule.  ASSUMED, and not always true: an earlier
+              # group's removal can have taken it (known finding C14 fix_ptm/raises:KeyError@fix_ptm[resname_resid_format...]: KeyError instead of the warning)
+              "forall(lambda r: implies(in_group(r), first_of(r) in MOLN), TInt)",
+              "forall(lambda j, n: implies(0 <= j and j < len(res_ptms) and n in res_ptms[j][0], n in MOLN), TInt, MNode)",
+              "forall(lambda j, k, n: implies(0 <= j and j < k and k < len(res_ptms) and n in res_ptms[j][0], not (n in res_ptms[k][0])), "
+              "   TInt, TInt, MNode)"],
+    ensures=[
+        # a group of unrecognised atoms that no combination of known modifications explains is reported - one warning of
+        # type unknown-input - and exactly its unrecognised atoms are removed from the molecule (and remembered as removed);
+        # the loop goes on with the next group.  Otherwise nothing is removed or reported here.
+        "coverable == (region_exit == 'end') and (not coverable) == (region_exit == 'continue')",
+        "implies(not coverable, len(WARNED) == len(old(WARNED)) + 1 and WARNED[len(old(WARNED))] == 'unknown-input')",
+        "implies(not coverable, " + UNID_M.format(J='len(res_ptms)') + ")",
+        "implies(not coverable, " + UNID_R.format(J='len(res_ptms)') + ")",
+        "implies(coverable, len(WARNED) == len(old(WARNED)) and forall(lambda n: (n in MOLN) == (n in old(MOLN)), MNode) and "
+        "   forall(lambda n: (n in removed) == (n in old(removed)), MNode))",
+        "forall(lambda k: implies(0 <= k and k < len(old(WARNED)), WARNED[k] == old(WARNED)[k]))",
+    ],
+    modifies=['MOLN', 'WARNED', 'removed'],
+    loops={
+        'L1': LoopSpec(inv=[UNID_M.format(J='_i'), UNID_R.format(J='_i')], modifies=['MOLN', 'removed']),
+        'L1.1': LoopSpec(inv=["forall(lambda n: (n in MOLN) == (n in g_M and not (n in idxs[0] and _posL1_1(n) < _i)), MNode)",
+                              "forall(lambda n: (n in removed) == (n in g_R or (n in idxs[0] and _posL1_1(n) < _i)), MNode)"],
+                         modifies=["MOLN", "removed"], ghost_init="g_M = set(MOLN)\ng_R = set(removed)",
+                         locals=dict(g_M=TSet(MNode), g_R=TSet(MNode))),
+    },
+    canary=[("molecule.remove_node(idx)", "pass"),
+            ("type='unknown-input')", "type='general')"),
+            ("for idx in idxs[0]:\n                    molecule.remove_node(idx)", "for idx in idxs[1]:\n                    molecule.remove_node(idx)")],
+)
+CONTRACTS.append(unidentified)
